@@ -407,7 +407,7 @@ func budget(tier string) time.Duration {
 		}
 	}
 	if tier == "thorough" {
-		return 40 * time.Minute
+		return 75 * time.Minute
 	}
 	return 8 * time.Minute
 }
